@@ -46,6 +46,7 @@ func (c *Ctx) mapComps(mt *types.Map) (has, val, ks, vs string) {
 			vs = "Int"
 		}
 	}
+	c.noteLeafType(base+".val", mt.Elem())
 	return base + ".has", base + ".val", ks, vs
 }
 
